@@ -179,4 +179,58 @@ theorem globalEventsParseData_tie (ext : Ext) (c lines : Val) :
   generalize ext ".__getitem__" [pd, Val.obj "type:LyricEvent.ParsedData" Val.fnil] = r3
   cases r1 <;> cases r2 <;> cases r3 <;> simp [bind, Except.bind]
 
+/-! ### `build_events_from_data`: which builder an event class is sent to -/
+
+def NEEDING : Val := .obj "type:<locals>.BPMNeedingEvent" .fnil
+
+/-- the dispatch of `build_events_from_data`: anchors are built from their data alone, tempo events from data and the *third argument as
+    resolution*, every other kind by `data_to_events` with the event class and the *third argument as tempo events*; the tests are made in
+    this order (an anchor class is never asked whether it is a tempo class) -/
+def buildV (ext : Ext) (et datas third : Val) : M Val :=
+  (ext "issubclass" [et, cls "AnchorEvent"] >>= truth) >>= fun a => if a then ext "data_to_anchor_events" [datas] else
+  (ext "issubclass" [et, cls "BPMEvent"] >>= truth) >>= fun b => if b then ext "data_to_bpm_events" [datas, third] else
+  (ext "issubclass" [et, NEEDING] >>= truth) >>= fun c3 => if c3 then ext "data_to_events" [et, datas, third] else
+  .error (.internal "UnreachableError")
+
+theorem buildEventsFromData_tie (ext : Ext) (et datas third : Val) :
+    Returns ext Gen.Imp.buildEventsFromData
+      (initEnv [("event_type", et), ("datas", datas), ("resolution_or_bpm_events_or_None", third)] Gen.Imp.buildEventsFromDataLocals)
+      (buildV ext et datas third) := by
+  have h0 : initEnv [("event_type", et), ("datas", datas), ("resolution_or_bpm_events_or_None", third)] Gen.Imp.buildEventsFromDataLocals =
+      [("event_type", some et), ("datas", some datas), ("resolution_or_bpm_events_or_None", some third), ("AnchorEvent", none), ("BPMEvent", none),
+       ("StarPowerEvent", none), ("TimeSignatureEvent", none), ("TrackEvent", none), ("bpm_events", none), ("resolution", none)] := by
+    simp [initEnv, Gen.Imp.buildEventsFromDataLocals]
+  rw [h0]
+  unfold Gen.Imp.buildEventsFromData buildV
+  simp only [cls, NEEDING, String.reduceAppend]
+  refine Returns.seq_norm (Runs.assign (by rw [evalExpr])) ?_
+  refine Returns.seq_norm (Runs.assign (by rw [evalExpr])) ?_
+  refine Returns.seq_norm (Runs.assign (by rw [evalExpr])) ?_
+  refine Returns.seq_norm (Runs.assign (by rw [evalExpr])) ?_
+  refine Returns.seq_norm (Runs.assign (by rw [evalExpr])) ?_
+  refine Returns.ite _ ?_ ?_ ?_
+  · ev_simp
+  · intro _
+    refine Returns.seq_norm (Runs.assign (v := datas) (by ev_simp)) ?_
+    refine Returns.ret_of _ ?_
+    ev_simp
+  · intro _
+    refine Returns.ite _ ?_ ?_ ?_
+    · ev_simp
+    · intro _
+      refine Returns.seq_norm (Runs.assign (v := datas) (by ev_simp)) ?_
+      refine Returns.seq_norm (Runs.assign (v := third) (by ev_simp)) ?_
+      refine Returns.ret_of _ ?_
+      ev_simp
+    · intro _
+      refine Returns.ite _ ?_ ?_ ?_
+      · ev_simp
+      · intro _
+        refine Returns.seq_norm (Runs.assign (v := datas) (by ev_simp)) ?_
+        refine Returns.seq_norm (Runs.assign (v := third) (by ev_simp)) ?_
+        refine Returns.ret_of _ ?_
+        ev_simp
+      · intro _
+        exact Returns.raise _ _ _
+
 end Chartparse.Tie
